@@ -13,6 +13,7 @@ type DispatchProfile struct {
 	Egress      bool
 	Sign        bool
 	Interleave  bool
+	Crash       bool // SQLite on the simulated disk; kill / power loss at drawn disk operations inside worker cycles and between steps
 	StoreFaults bool // the store refuses single calls of the dispatcher (settlements, attempt records)
 	Batchy      bool // single-target routes with concurrency > 1 (micro-batches), slow and hanging targets
 	Backends    []string
@@ -225,6 +226,11 @@ func GenDispatchProgram(t *rapid.T, prof DispatchProfile) *Program {
 		}
 		sys.Scripts[host] = sc
 	}
+	if prof.Crash {
+		sys.Crash = true
+		spec.Backend = "sqlite"
+		p.World = "dispatchcrash"
+	}
 	p.Sys, _ = json.Marshal(sys)
 	p.Offset = rapid.SampledFrom([]int64{0, 500_000_000}).Draw(t, "clock_offset")
 	advances := []time.Duration{100 * time.Millisecond, 500 * time.Millisecond, time.Second, 2 * time.Second, 4 * time.Second, 30 * time.Second, 29 * time.Minute, 30 * time.Minute, 59 * time.Minute, time.Hour, 61 * time.Minute}
@@ -241,6 +247,9 @@ func GenDispatchProgram(t *rapid.T, prof DispatchProfile) *Program {
 			p.Steps = append(p.Steps, Step{Op: "storefault", Batch: rapid.IntRange(1, 2).Draw(t, "sf.n"),
 				Reason: rapid.SampledFrom([]string{"AckBatch", "NackBatch", "MarkDeadBatch", "Ack", "Nack", "MarkDead", "RecordAttempt", "AckBatch", "NackBatch"}).Draw(t, "sf.method")})
 		}
+		if prof.Crash && rapid.IntRange(0, 14).Draw(t, "crashstep?") == 0 {
+			p.Steps = append(p.Steps, Step{Op: "crash", Image: rapid.SampledFrom([]string{"kill", "powerloss"}).Draw(t, "cs.image"), ImgSeed: int64(rapid.IntRange(0, 1<<20).Draw(t, "cs.seed"))})
+		}
 		switch {
 		case k < 5:
 			p.Steps = append(p.Steps, Step{Op: "publish", Batch: rapid.IntRange(0, 1).Draw(t, "route"), Pad: rapid.IntRange(0, 3).Draw(t, "extra") == 0})
@@ -256,6 +265,15 @@ func GenDispatchProgram(t *rapid.T, prof DispatchProfile) *Program {
 				s.Batch = rapid.IntRange(0, 8).Draw(t, "stall_at")
 			}
 			p.Steps = append(p.Steps, s)
+		}
+	}
+	if prof.Crash {
+		// the process dies at the k-th disk operation of a step (inside a worker's
+		// dequeue, attempt record or settlement, or inside a publish)
+		for i := rapid.SampledFrom([]int{1, 1, 2, 3}).Draw(t, "nfaults"); i > 0; i-- {
+			p.Faults = append(p.Faults, Fault{Site: "disk", AfterStep: rapid.IntRange(0, len(p.Steps)-1).Draw(t, "f.step"), Hit: rapid.IntRange(0, 40).Draw(t, "f.hit"),
+				Action:  rapid.SampledFrom([]string{"crash.kill", "crash.kill", "crash.powerloss"}).Draw(t, "f.action"),
+				ImgSeed: int64(rapid.IntRange(0, 1<<20).Draw(t, "f.imgseed"))})
 		}
 	}
 	return p
@@ -289,6 +307,23 @@ func init() {
 		"push part: signed targets with inline secret or secret_ref versions (overlapping, adjacent, tied valid_from), both selection modes; clock walked across window boundaries; oracle: HMAC recomputed independently from the received request (method, escaped path, timestamp header, body) under the version the reference selection picks; no valid version => nothing reached the transport", 1200, 40000)
 	reg("C03", DispatchProfile{Backends: both, Interleave: true, Batchy: true},
 		"dispatcher part: single-target routes with concurrency 2-6 (micro-batches of up to 4 leases per worker), targets that hang to the deadline or answer just inside it, worker cycles sequential and interleaved; oracle: every message a worker's dequeue returns was offerable in the model (no unexpired lease of another worker), and unless the simulator stalled the worker every delivery starts and is settled before the worker's own lease runs out (the lease the dispatcher asks for covers a whole sequential micro-batch)", 1200, 40000)
+	for _, pr := range []string{"C01", "C05", "C06"} {
+		pr := pr
+		Register(&CheckSpec{
+			Prop: pr, World: "dispatchcrash",
+			Gen: func(t *rapid.T) *Program {
+				return GenDispatchProgram(t, DispatchProfile{Backends: []string{"sqlite"}, Interleave: true, Crash: true})
+			},
+			Run: RunDispatchProgram,
+			NonTrivial: func(p *Program, r *Result) bool {
+				return r.Probes["dispatch.dequeue.nonempty"] >= 1 && r.Faults["crash.kill"]+r.Faults["crash.powerloss"] > 0
+			},
+			Rule:     "push path under process death: deliver routes on SQLite over the simulated disk, worker cycles sequential and interleaved, a kill or power loss at the k-th disk operation inside a worker's dequeue / attempt record / settlement or inside a publish, and between steps; a fresh node (new dispatcher) starts on the post-crash image; oracle: node starts, integrity_check ok, every message that was stored is still there (queued, leased by the dead process, dead-lettered) or one of its deliveries was answered with 2xx, nothing else appears; the queue model continues from the restart listing, leases of the dead process expire on the simulated clock, and after the faults stop every message ends delivered or dead; non-trivial = at least one delivery attempted and one crash",
+			RealStub: dispStub,
+			Level:    "fault_enumeration",
+			Quick:    600, Thorough: 30000,
+		})
+	}
 	reg("C07", DispatchProfile{Backends: both},
 		"push part: body received by the target equals the accepted payload, stored headers are passed on, across retries and redeliveries", 800, 30000)
 }
